@@ -5,6 +5,7 @@ From Coq Require Import List NArith Bool.
 From Feox Require Import Gen.Constants Model.FreeSpace Proofs.FreeSpaceProofs Proofs.OwnershipProofs.
 From Feox Require Model.FailPath Proofs.FailPathProofs.
 From Feox Require Model.FailBatches Proofs.FailBatchesProofs.
+From Feox Require Model.Codec Model.Recovery Proofs.ScanAcceptsProofs Proofs.ScanQuiescentProofs.
 Import ListNotations.
 Local Open Scope N_scope.
 
@@ -124,7 +125,11 @@ Theorem ownership_partition_through_failures_over_batches :
   Inv (FailPath.f_fs st) /\
   (forall b, (FailPathProofs.cnt b owned <= 1)%nat) /\
   (forall b, DS <= b < dev_sectors (FailPath.f_fs st) -> (free (FailPath.f_fs st) b <-> FailPathProofs.cnt b owned = O)) /\
-  FailPath.f_usage st = FailPathProofs.sum_blocks owned.
+  FailPath.f_usage st = FailPathProofs.sum_blocks owned
+
+(* the partition as the recovery scan rebuilds it from a quiescent data area (records with distinct
+   keys, completed marker runs, free blocks, in any order): after the scan and the release of the
+   tail every block of the data area is free exactly when no live record's extent covers it *).
 Proof. exact FailBatchesProofs.ownership_partition_through_failures_batched. Qed.
 Check ownership_partition_through_failures_over_batches :
   forall fault d f cs,
@@ -134,8 +139,49 @@ Check ownership_partition_through_failures_over_batches :
   Inv (FailPath.f_fs st) /\
   (forall b, (FailPathProofs.cnt b owned <= 1)%nat) /\
   (forall b, DS <= b < dev_sectors (FailPath.f_fs st) -> (free (FailPath.f_fs st) b <-> FailPathProofs.cnt b owned = O)) /\
-  FailPath.f_usage st = FailPathProofs.sum_blocks owned.
+  FailPath.f_usage st = FailPathProofs.sum_blocks owned
+
+(* the partition as the recovery scan rebuilds it from a quiescent data area (records with distinct
+   keys, completed marker runs, free blocks, in any order): after the scan and the release of the
+   tail every block of the data area is free exactly when no live record's extent covers it *).
 Print Assumptions ownership_partition_through_failures_over_batches.
+
+Theorem recovery_rebuilds_the_partition :
+  forall c version total jl img,
+  Recovery.c_ro c = false -> Codec.has_token version = true -> total <= Recovery.U64MAX ->
+  forall its st0,
+  Recovery.rs_fs st0 = mkfs [] (total * FEOX_BLOCK_SIZE) 0 0 -> Recovery.rs_last_end st0 = FEOX_DATA_START_BLOCK -> Recovery.rs_idx st0 = [] ->
+  total * FEOX_BLOCK_SIZE < U64 ->
+  Forall (ScanQuiescentProofs.item_ok version) its -> ScanAcceptsProofs.distinct_keys (ScanQuiescentProofs.recs_of its) ->
+  skipn (N.to_nat FEOX_DATA_START_BLOCK) img = ScanQuiescentProofs.ilayout version FEOX_DATA_START_BLOCK its ->
+  total = FEOX_DATA_START_BLOCK + ScanQuiescentProofs.isum version its -> 0 < ScanQuiescentProofs.isum version its ->
+  exists st' st'',
+    Recovery.scan (S (length its)) c version total img FEOX_DATA_START_BLOCK st0 jl = Recovery.Ok st' /\
+    (if Recovery.rs_last_end st' <? total then Recovery.fs_release st' (Recovery.rs_last_end st') (total - Recovery.rs_last_end st') else Recovery.Ok st') = Recovery.Ok st'' /\
+    (forall r, In r (ScanQuiescentProofs.recs_of its) -> exists s, Recovery.idx_find (Codec.r_key r) (Recovery.rs_idx st'') = Some (ScanQuiescentProofs.entry_of version r s)) /\
+    Recovery.rs_count st'' = Recovery.rs_count st0 + N.of_nat (length (ScanQuiescentProofs.recs_of its)) /\
+    Recovery.rs_retired st'' = Recovery.rs_retired st0 /\
+    (forall b, FEOX_DATA_START_BLOCK <= b < total ->
+               (free (Recovery.rs_fs st'') b <-> ~ ScanQuiescentProofs.covered version FEOX_DATA_START_BLOCK its b)).
+Proof. exact ScanQuiescentProofs.quiescent_data_area_is_partitioned. Qed.
+Check recovery_rebuilds_the_partition :
+  forall c version total jl img,
+  Recovery.c_ro c = false -> Codec.has_token version = true -> total <= Recovery.U64MAX ->
+  forall its st0,
+  Recovery.rs_fs st0 = mkfs [] (total * FEOX_BLOCK_SIZE) 0 0 -> Recovery.rs_last_end st0 = FEOX_DATA_START_BLOCK -> Recovery.rs_idx st0 = [] ->
+  total * FEOX_BLOCK_SIZE < U64 ->
+  Forall (ScanQuiescentProofs.item_ok version) its -> ScanAcceptsProofs.distinct_keys (ScanQuiescentProofs.recs_of its) ->
+  skipn (N.to_nat FEOX_DATA_START_BLOCK) img = ScanQuiescentProofs.ilayout version FEOX_DATA_START_BLOCK its ->
+  total = FEOX_DATA_START_BLOCK + ScanQuiescentProofs.isum version its -> 0 < ScanQuiescentProofs.isum version its ->
+  exists st' st'',
+    Recovery.scan (S (length its)) c version total img FEOX_DATA_START_BLOCK st0 jl = Recovery.Ok st' /\
+    (if Recovery.rs_last_end st' <? total then Recovery.fs_release st' (Recovery.rs_last_end st') (total - Recovery.rs_last_end st') else Recovery.Ok st') = Recovery.Ok st'' /\
+    (forall r, In r (ScanQuiescentProofs.recs_of its) -> exists s, Recovery.idx_find (Codec.r_key r) (Recovery.rs_idx st'') = Some (ScanQuiescentProofs.entry_of version r s)) /\
+    Recovery.rs_count st'' = Recovery.rs_count st0 + N.of_nat (length (ScanQuiescentProofs.recs_of its)) /\
+    Recovery.rs_retired st'' = Recovery.rs_retired st0 /\
+    (forall b, FEOX_DATA_START_BLOCK <= b < total ->
+               (free (Recovery.rs_fs st'') b <-> ~ ScanQuiescentProofs.covered version FEOX_DATA_START_BLOCK its b)).
+Print Assumptions recovery_rebuilds_the_partition.
 Example partition_unfolds : forall o, OInv o ->
   forall b, FEOX_DATA_START_BLOCK <= b < dev_sectors (ofs o) -> (free (ofs o) b <-> ~ owned_blk o b).
 Proof. intros o [_ H _ _]. exact H. Qed.
